@@ -12,7 +12,7 @@ FOCUS = {
             "mine": ("validation", "VALID", "INVALID", "NOT_FOUND", "CRASH", "UB")},
     "C02": {"theorems": ["C02_history", "C02_no_change", "C02_distinct"],
             "mine": ("result code", "contents", "enumerated")},
-    "C09": {"theorems": ["C09_history", "C09_free", "C09_reload"],
+    "C09": {"theorems": ["C09_history", "C09_free", "C09_reload", "C09_cache_driven"],
             "mine": ("callback", "replay", "diff")},
 }
 
